@@ -46,6 +46,8 @@ type GenCfg struct {
 	NoNestedSourceTags bool     // fields of nested structs carry no source tags (open finding: nested lookups ignore them)
 	NoNestedStructs    bool     // no struct below the root struct (flat sources)
 	LogicalKeys        bool     // Render keys struct values by schema key (a logical record to be re-keyed per front end)
+	PostBehaviours     []string // behaviours of generated PostTransforms (default: mutate)
+	PPre               float64  // probability that a string leaf / string slice is wrapped in Preprocess (parse only)
 	PClean             float64  // probability that a case gets no input perturbation at all (PVary/PAbsent/PJunk scaled to 0)
 	PLight             float64  // probability that the perturbation probabilities are scaled by 0.25
 }
@@ -518,6 +520,22 @@ func numVal(kind string, f float64) Val {
 	return Val{T: kind, S: strconv.FormatInt(int64(math.Floor(f)), 10)}
 }
 
+func (g *Gen) post() PostSpec {
+	if len(g.Cfg.PostBehaviours) == 0 {
+		return PostSpec{Behaviour: "mutate"}
+	}
+	return PostSpec{Behaviour: pick(g, g.Cfg.PostBehaviours, "pbeh")}
+}
+
+func (g *Gen) genPosts(n *Node, label string) {
+	for g.p(g.Cfg.PPost, label) && len(n.Posts) < 3 {
+		n.Posts = append(n.Posts, g.post())
+		if len(g.Cfg.PostBehaviours) == 0 {
+			return
+		}
+	}
+}
+
 func (g *Gen) genReq(n *Node) {
 	n.Req = g.p(g.Cfg.PReq, "req")
 	if n.Req && g.p(g.Cfg.POpts, "reqopt") {
@@ -533,6 +551,20 @@ func (g *Gen) genReq(n *Node) {
 
 // GenNode generates a schema tree of the given remaining depth.
 func (g *Gen) GenNode(depth int, root bool) *Node {
+	if !root && g.Cfg.Mode == "parse" && g.p(g.Cfg.PPre, "pre") {
+		n := &Node{Kind: KPre, PreFn: pick(g, []string{"trim", "split", "error", "any", "trim"}, "prefn")}
+		saved := g.Cfg
+		g.Cfg.PPre, g.Cfg.PCoercer, g.Cfg.LeafKinds = 0, 0, []string{KString}
+		if n.PreFn == "split" {
+			n.Elem = &Node{Kind: KSlice, Elem: g.GenNode(0, false)}
+			g.wit[n.Elem] = Int(2)
+			g.genReq(n.Elem)
+		} else {
+			n.Elem = g.GenNode(0, false)
+		}
+		g.Cfg = saved
+		return n
+	}
 	kind := g.pickKind(depth, root)
 	n := &Node{Kind: kind}
 	switch {
@@ -553,9 +585,7 @@ func (g *Gen) GenNode(depth int, root bool) *Node {
 		}
 		g.genLeafTests(n, w)
 		g.genCoercer(n)
-		if g.p(g.Cfg.PPost, "post") {
-			n.Posts = append(n.Posts, PostSpec{Behaviour: "mutate"})
-		}
+		g.genPosts(n, "post")
 	case kind == KSlice:
 		n.Elem = g.GenNode(depth-1, false)
 		g.genReq(n)
@@ -606,9 +636,7 @@ func (g *Gen) GenNode(depth int, root bool) *Node {
 			n.Def = &d
 		}
 		g.genCoercer(n)
-		if g.p(g.Cfg.PPost, "spost") {
-			n.Posts = append(n.Posts, PostSpec{Behaviour: "mutate"})
-		}
+		g.genPosts(n, "spost")
 	case kind == KStruct:
 		maxF := g.Cfg.MaxFields
 		nf := g.intn(1, maxF, "nf")
@@ -670,9 +698,7 @@ func (g *Gen) GenNode(depth int, root bool) *Node {
 				n.Tests = append(n.Tests, ft)
 			}
 		}
-		if g.p(g.Cfg.PPost, "stpost") {
-			n.Posts = append(n.Posts, PostSpec{Behaviour: "mutate"})
-		}
+		g.genPosts(n, "stpost")
 	case kind == KPtr:
 		n.Elem = g.GenNode(depth-1, false)
 		for n.Elem.Kind == KPtr {
@@ -812,6 +838,22 @@ func (g *Gen) GenTyped(n *Node) Val {
 		return out
 	case n.Kind == KPtr:
 		return g.GenTyped(n.Elem)
+	case n.Kind == KPre:
+		if n.PreFn == "split" {
+			var parts []string
+			for i, k := 0, g.intn(1, 3, "spl"); i < k; i++ {
+				parts = append(parts, g.leafValue(n.Elem.Elem).S)
+			}
+			return Str(strings.Join(parts, ","))
+		}
+		v := g.leafValue(n.Elem)
+		if n.PreFn == "trim" && g.p(0.5, "pad") {
+			v = Str("  " + v.S + " ")
+		}
+		if g.p(0.1, "wrongtype") {
+			return Int(7) // not the F the function expects
+		}
+		return v
 	}
 	panic("GenTyped " + n.Kind)
 }
@@ -860,6 +902,9 @@ func (g *Gen) Render(n *Node, v Val, pos string) (Val, bool) {
 		default:
 			return Str("\u00a0"), true
 		}
+	}
+	if n.Kind == KPre {
+		return v, true
 	}
 	if n.Kind != KSlice && n.Kind != KString && n.Kind != KCustom && n.Kind != KPtr && g.p(g.Cfg.PJunk*g.scale, "junk") {
 		if j := junkFor(n.Kind); len(j) > 0 {
